@@ -346,7 +346,7 @@ func (a *funcAnalysis) target(e ast.Expr) (class int, local bool) {
 	return cCall, false
 }
 
-func normText(s string, max int) string {
+func storeNormText(s string, max int) string {
 	s = strings.Join(strings.Fields(s), " ")
 	r := []rune(s)
 	if len(r) > max {
@@ -363,7 +363,7 @@ func (a *funcAnalysis) stores() []storeEntry {
 		if c == 0 || c == cFresh {
 			return
 		}
-		e := storeEntry{fn, normText(a.p.text(n), 72), worst(c)}
+		e := storeEntry{fn, storeNormText(a.p.text(n), 72), worst(c)}
 		if len(out) > 0 && out[len(out)-1] == e {
 			return // same statement, several left-hand sides
 		}
